@@ -1,13 +1,16 @@
+mod c03;
 mod c07;
 mod c12;
 mod core;
 mod logcap;
 mod sched;
+mod srch;
 
 fn main() {
     logcap::install();
     let args = core::Args::parse();
     match args.prop.to_lowercase().as_str() {
+        "c03" => c03::run(&args),
         "c07" => c07::run(&args),
         "c12" => c12::run(&args),
         other => {
